@@ -220,6 +220,19 @@ def work(bins, seed, nstarts, per_start):
             continue
         st["starts"] += 1
         _, schema0, vars0 = base
+        if "--tag-version" in base_argv:
+            # the start version must be the one the tag denotes (judged without zerv's parsers)
+            tv = c07.vars_from_tag(base_argv[base_argv.index("--tag-version") + 1])
+            if tv is not None:
+                st["start_state_checks"] = st.get("start_state_checks", 0) + 1
+                for k in VERSION_FIELDS:
+                    got_k = vars0.get(k)
+                    if isinstance(got_k, list):
+                        got_k = tuple(got_k)
+                    if got_k != tv[k]:
+                        bad.append(("start-version-differs-from-tag", "--tag-version %s gives %s=%r, the tag denotes %r" % (
+                            base_argv[base_argv.index("--tag-version") + 1], k, got_k, tv[k]), dict(argv=base_argv, stdin=stdin)))
+                        break
         if stdin is not None and "--tag-version" in base_argv:
             # metamorphic: the version fields must be those of the tag alone, whatever the stdin object carried
             i = base_argv.index("--tag-version")
